@@ -1,6 +1,7 @@
 package props
 
 import (
+	"bytes"
 	"fmt"
 	"os"
 	"testing"
@@ -116,7 +117,7 @@ func TestReplayC10(t *testing.T) {
 // TestC10Big: the same fault enumeration on a few fixed big files (one page of > 2040 records per column, so that
 // page bodies of every column family - incl. bit-packed required bools - are far larger than any internal buffer).
 func TestC10Big(t *testing.T) {
-	if !fx.Has("big") {
+	if !fx.Has("big") || !fx.Has("bigtail") {
 		t.Skip()
 	}
 	nsh, idx := envInt("VERIF_NSHARDS", 1), envInt("VERIF_SHARDIDX", 0)
@@ -124,6 +125,21 @@ func TestC10Big(t *testing.T) {
 	g := vt.DefaultGen
 	g.LongList, g.MaxList, g.LongStr, g.MaxStr, g.UniformStr = 0, 2, 0, 24, true
 	k := 0
+	// one more file: a single uncompressed page of about 5 MiB (5000 strings of 1000 bytes), read in one piece
+	if nsh == 1 || idx == nsh-1 {
+		w := &Workload{Fixture: "bigtail", PageSize: 10000, Codec: fx.Uncompressed, Batches: []int{5000}}
+		for i := 0; i < 5000; i++ {
+			s := bytes.Repeat([]byte{byte('a' + i%26)}, 1000)
+			w.Records = append(w.Records, &vt.Val{F: []*vt.Val{{U: uint64(i)}, {S: vt.Bytes(s)}}})
+		}
+		o := checkC10(w, func(k int, mode string, kind byte) {
+			record("C10", fmt.Sprintf("big5m/%d/%s", k, mode), true, []string{"mode=" + mode, "fixture=big", "page-payload>4MiB"}, nil)
+		})
+		if o != nil && !isKnown("C10", o.Key) {
+			saveFail("C10", w, o)
+			t.Fatalf("C10 violated: %s", o.Error())
+		}
+	}
 	for codec := 0; codec < 3; codec++ {
 		for _, batches := range [][]int{{2100}, {2090, 10}} {
 			k++
